@@ -270,9 +270,11 @@ def make_func(ctx: Ctx, spec: dict, flavour: str):
         if hook is not None:
             hook(a)
         if _should_fail(fail, a):
-            if spec.get("fail_per_args"):
-                raise ctx.injected.setdefault((fid, a), InjectedCls(fid, a))
-            raise injected
+            exc = ctx.injected.setdefault((fid, a), InjectedCls(fid, a)) if spec.get("fail_per_args") else injected
+            if spec.get("fail_chained"):
+                # `raise DomainError(...) from low`: the node's exception carries an explicit cause
+                raise exc from OSError(f"low-level cause in {fid}")
+            raise exc
 
     if is_async and spec.get("agen"):
         # async generator node: the executor drains it into a list; the body only runs while it is drained
